@@ -232,7 +232,7 @@ def c_class(c):
     for m in c.static_methods:
         out += c_method("S", m, False)
     for p in c.properties:
-        out += "  P " + p.name + " | " + p.ctype.to_cpp() + "\n"
+        out += "  P " + p.name + " | " + p.ctype.to_cpp() + ((" = " + p.default) if getattr(p, "default", None) else "") + "\n"
     for o in c.operators:
         out += "  O " + o.operator + " | " + o.return_type.to_cpp() + " | (" + c_args(o.args) + ")\n"
     for e in c.enums:
